@@ -572,3 +572,12 @@ func (g *Gen) overrideInit(t *Type, depth int) Expr {
 }
 
 func init() { _ = fmt.Sprint }
+
+// ConstExpr generates a const-expression of type t over literals only (no variables, no calls): used by C06.
+// The result may be a WGSL shader-creation error (ConstOK is not consulted when cfg.ConstOK is nil).
+func (g *Gen) ConstExpr(t *Type, depth int) Expr {
+	old := g.fx
+	g.fx = nil
+	defer func() { g.fx = old }()
+	return g.genExprT(t, depth)
+}
